@@ -1,11 +1,509 @@
-//! C21 (not built yet)
-use crate::report::{Disagreement, Run};
-use serde_json::Value;
+//! C21 Date serial numbers and calendar dates correspond one-to-one (complete sweep of all serials).
+//!
+//! Space: every serial 1..=2_958_465 (quick: every 97th serial, the first and last day of every month of every
+//! year 1899..=9999, the first/last 1000 serials) plus serials outside the range.
+//! Oracle: a proleptic-Gregorian reference calendar written in the harness (fnum.rs, civil-from-days, no chrono),
+//! epoch taken from the engine's own convention serial 1 = 1899-12-31 (no phantom 1900-02-29).
 
-pub fn run(run: &mut Run) {
-    run.machinery_errors.push("C21: check not built yet".into());
+use crate::fnum::{civil_from_days, days_from_civil, days_in_month, weekday_mon0};
+use crate::report::{Disagreement, Run};
+use ironcalc_base::cell::CellValue;
+use ironcalc_base::expressions::types::Area;
+use ironcalc_base::formatter::dates::{date_to_serial_number, from_excel_date};
+use ironcalc_base::formatter::format::format_number;
+use ironcalc_base::formatter::lexer::is_likely_date_number_format;
+use ironcalc_base::locale::get_locale;
+use ironcalc_base::Model;
+use serde_json::{json, Value};
+
+pub const MIN_SERIAL: i64 = 1;
+pub const MAX_SERIAL: i64 = 2_958_465;
+
+/// days since 1970-01-01 of serial 0 (1899-12-30): serial 1 = 1899-12-31
+fn base_days() -> i64 {
+    days_from_civil(1899, 12, 30)
 }
 
-pub fn replay(_case: &Value) -> Vec<Disagreement> {
+pub fn ref_date(serial: i64) -> (i64, i64, i64) {
+    civil_from_days(base_days() + serial)
+}
+
+fn iso(y: i64, m: i64, d: i64) -> String {
+    format!("{:04}-{:02}-{:02}", y, m, d)
+}
+
+struct Ctx {
+    model: Model<'static>,
+}
+
+const FORMULAS: [(&str, &str); 9] = [
+    ("YEAR", "=YEAR(A1)"),
+    ("MONTH", "=MONTH(A1)"),
+    ("DAY", "=DAY(A1)"),
+    ("WEEKDAY(,default)", "=WEEKDAY(A1)"),
+    ("WEEKDAY(,1)", "=WEEKDAY(A1,1)"),
+    ("WEEKDAY(,2)", "=WEEKDAY(A1,2)"),
+    ("WEEKDAY(,3)", "=WEEKDAY(A1,3)"),
+    ("DATE(y,m,d)", "=DATE(A2,B2,C2)"),
+    ("DATE(YEAR,MONTH,DAY)", "=DATE(YEAR(A1),MONTH(A1),DAY(A1))"),
+];
+
+impl Ctx {
+    fn new() -> Ctx {
+        let mut model = Model::new_empty("c21", "en", "UTC", "en").expect("model");
+        for (i, (_, f)) in FORMULAS.iter().enumerate() {
+            model
+                .set_user_input(0, 5, 1 + i as i32, f.to_string())
+                .expect("formula");
+        }
+        Ctx { model }
+    }
+}
+
+fn cell_text(v: &Result<CellValue, String>) -> String {
+    match v {
+        Ok(CellValue::Number(f)) => format!("{}", f),
+        Ok(CellValue::String(s)) => format!("\"{}\"", s),
+        Ok(CellValue::Boolean(b)) => format!("{}", b),
+        Ok(CellValue::None) => "<empty>".into(),
+        Err(e) => format!("Err({})", e),
+    }
+}
+
+fn class_of(serial: i64) -> &'static str {
+    if !(MIN_SERIAL..=MAX_SERIAL).contains(&serial) {
+        return "outside";
+    }
+    let (y, m, d) = ref_date(serial);
+    if m == 2 && d == 29 {
+        "leap-day"
+    } else if d == 1 || d == days_in_month(y, m) {
+        "month-boundary"
+    } else {
+        "inner"
+    }
+}
+
+fn check_inside(ctx: &mut Ctx, n: i64, case: &Value) -> (Vec<Disagreement>, bool) {
+    let mut out = vec![];
+    let (y, m, d) = ref_date(n);
+    let want_iso = iso(y, m, d);
+    let cls = class_of(n);
+    let mut mk = |what: &str, shape: &str, detail: String| {
+        out.push(Disagreement {
+            sig: format!("{} {} class={}", what, shape, cls),
+            case: case.clone(),
+            detail: format!("serial {} is {} by the reference calendar; {}", n, want_iso, detail),
+        })
+    };
+    let mut engine_date_ok = false;
+    // 1. from_excel_date
+    match from_excel_date(n) {
+        Ok(date) => {
+            let got = format!("{}", date);
+            if got != want_iso {
+                mk("from_excel_date", "wrong-date", format!("from_excel_date gives {}", got));
+            } else {
+                engine_date_ok = true;
+            }
+        }
+        Err(e) => mk("from_excel_date", "rejected", format!("from_excel_date fails: {}", e)),
+    }
+    // 2. date_to_serial_number
+    match date_to_serial_number(d as u32, m as u32, y as i32) {
+        Ok(s) => {
+            if s as i64 != n {
+                mk(
+                    "date_to_serial_number",
+                    "wrong-serial",
+                    format!("date_to_serial_number({},{},{}) gives {}", d, m, y, s),
+                );
+            }
+        }
+        Err(e) => mk(
+            "date_to_serial_number",
+            "rejected",
+            format!("date_to_serial_number({},{},{}) fails: {}", d, m, y, e),
+        ),
+    }
+    // 3. functions through the model
+    let md = &mut ctx.model;
+    let _ = md.update_cell_with_number(0, 1, 1, n as f64);
+    let _ = md.update_cell_with_number(0, 2, 1, y as f64);
+    let _ = md.update_cell_with_number(0, 2, 2, m as f64);
+    let _ = md.update_cell_with_number(0, 2, 3, d as f64);
+    md.evaluate();
+    let wd = weekday_mon0(base_days() + n);
+    let sunday1 = (wd + 1) % 7 + 1;
+    let expect: [i64; 9] = [y, m, d, sunday1, sunday1, wd + 1, wd, n, n];
+    for (i, (name, _)) in FORMULAS.iter().enumerate() {
+        let v = md.get_cell_value_by_index(0, 5, 1 + i as i32);
+        let ok = matches!(&v, Ok(CellValue::Number(f)) if *f == expect[i] as f64);
+        if !ok {
+            let shape = match &v {
+                Ok(CellValue::Number(_)) => "wrong-value",
+                Ok(CellValue::String(s)) if s.starts_with('#') => "error",
+                _ => "wrong-kind",
+            };
+            mk(
+                name,
+                shape,
+                format!("{} gives {} (expected {})", name, cell_text(&v), expect[i]),
+            );
+        }
+    }
+    // 4. date number formats
+    let locale = get_locale("en").expect("locale");
+    let f = format_number(n as f64, "yyyy-mm-dd", locale);
+    if f.error.is_some() || f.text != want_iso {
+        mk(
+            "format yyyy-mm-dd",
+            if f.error.is_some() { "error" } else { "wrong-text" },
+            format!("format_number(n,\"yyyy-mm-dd\") gives `{}` error={:?}", f.text, f.error),
+        );
+    }
+    let f = format_number(n as f64, "d/m/yy", locale);
+    let want = format!("{}/{}/{:02}", d, m, y % 100);
+    if f.error.is_some() || f.text != want {
+        mk(
+            "format d/m/yy",
+            if f.error.is_some() { "error" } else { "wrong-text" },
+            format!("format_number(n,\"d/m/yy\") gives `{}` error={:?} (expected `{}`)", f.text, f.error, want),
+        );
+    }
+    let f = format_number(n as f64, "dddd", locale);
+    // day_names of the locale start on Sunday
+    let want = locale.dates.day_names[((wd + 1) % 7) as usize].clone();
+    if f.error.is_some() || f.text != want {
+        mk(
+            "format dddd",
+            if f.error.is_some() { "error" } else { "wrong-text" },
+            format!("format_number(n,\"dddd\") gives `{}` error={:?} (expected `{}`)", f.text, f.error, want),
+        );
+    }
+    // 5. typing the ISO text
+    let _ = md.range_clear_all(&Area { sheet: 0, row: 3, column: 1, width: 1, height: 1 });
+    match md.set_user_input(0, 3, 1, want_iso.clone()) {
+        Ok(()) => {
+            let v = md.get_cell_value_by_index(0, 3, 1);
+            let is_num_cell = matches!(crate::fnum::cell_kind(md, 0, 3, 1), crate::fnum::Kind::Number(_));
+            match &v {
+                Ok(CellValue::Number(x)) if is_num_cell => {
+                    if *x != n as f64 {
+                        mk("typed-iso", "wrong-serial", format!("typing `{}` stores {}", want_iso, x));
+                    }
+                    let fmt = md
+                        .get_style_for_cell(0, 3, 1)
+                        .map(|s| s.num_fmt)
+                        .unwrap_or_default();
+                    if !is_likely_date_number_format(&fmt) {
+                        mk(
+                            "typed-iso",
+                            "no-date-format",
+                            format!("typing `{}` leaves number format `{}`", want_iso, fmt),
+                        );
+                    } else if *x == n as f64 {
+                        let shown = md.get_formatted_cell_value(0, 3, 1).unwrap_or_default();
+                        if shown != want_iso {
+                            mk(
+                                "typed-iso",
+                                "displays-differently",
+                                format!("typing `{}` displays `{}` (format `{}`)", want_iso, shown, fmt),
+                            );
+                        }
+                    }
+                }
+                other => mk(
+                    "typed-iso",
+                    "not-a-number",
+                    format!("typing `{}` stores {}", want_iso, cell_text(other)),
+                ),
+            }
+        }
+        Err(e) => mk("typed-iso", "input-rejected", format!("set_user_input(`{}`) fails: {}", want_iso, e)),
+    }
+    (out, engine_date_ok)
+}
+
+fn check_outside(ctx: &mut Ctx, n: i64, case: &Value) -> Vec<Disagreement> {
+    let mut out = vec![];
+    let side = if n < MIN_SERIAL { "below" } else { "above" };
+    let mut mk = |what: &str, detail: String| {
+        out.push(Disagreement {
+            sig: format!("{} accepts-outside side={}", what, side),
+            case: case.clone(),
+            detail: format!("serial {} is outside {}..={}; {}", n, MIN_SERIAL, MAX_SERIAL, detail),
+        })
+    };
+    if let Ok(date) = from_excel_date(n) {
+        mk("from_excel_date", format!("from_excel_date gives {}", date));
+    }
+    let md = &mut ctx.model;
+    let _ = md.update_cell_with_number(0, 1, 1, n as f64);
+    let (y, m, d) = ref_date(n);
+    let _ = md.update_cell_with_number(0, 2, 1, y as f64);
+    let _ = md.update_cell_with_number(0, 2, 2, m as f64);
+    let _ = md.update_cell_with_number(0, 2, 3, d as f64);
+    md.evaluate();
+    // every function must answer with an error value (the last one, DATE(YEAR..), is an error by propagation)
+    for (i, (name, _)) in FORMULAS.iter().enumerate() {
+        let v = md.get_cell_value_by_index(0, 5, 1 + i as i32);
+        let is_err = matches!(md.get_cell_type(0, 5, 1 + i as i32), Ok(ironcalc_base::types::CellType::ErrorValue));
+        if !is_err {
+            mk(name, format!("{} gives {} instead of an error", name, cell_text(&v)));
+        }
+    }
+    let locale = get_locale("en").expect("locale");
+    let f = format_number(n as f64, "yyyy-mm-dd", locale);
+    if f.error.is_none() {
+        mk("format yyyy-mm-dd", format!("format_number gives `{}` without error", f.text));
+    }
+    // typing the ISO text of a date outside the range must not produce a date
+    if (0..=9999).contains(&y) {
+        let text = iso(y, m, d);
+        let _ = md.range_clear_all(&Area { sheet: 0, row: 3, column: 1, width: 1, height: 1 });
+        if md.set_user_input(0, 3, 1, text.clone()).is_ok() {
+            if let crate::fnum::Kind::Number(x) = crate::fnum::cell_kind(md, 0, 3, 1) {
+                let fmt = md.get_style_for_cell(0, 3, 1).map(|s| s.num_fmt).unwrap_or_default();
+                let what = if (MIN_SERIAL as f64..=MAX_SERIAL as f64).contains(&x) {
+                    "typed-iso stored=another-date"
+                } else {
+                    "typed-iso stored=out-of-range-serial"
+                };
+                mk(
+                    what,
+                    format!("typing `{}` stores the number {} with format `{}`", text, x, fmt),
+                );
+            }
+        }
+    }
+    out
+}
+
+fn check_serial(ctx: &mut Ctx, n: i64) -> (Vec<Disagreement>, bool) {
+    let case = json!({"serial": n});
+    if (MIN_SERIAL..=MAX_SERIAL).contains(&n) {
+        check_inside(ctx, n, &case)
+    } else {
+        (check_outside(ctx, n, &case), false)
+    }
+}
+
+/// Invalid calendar dates must be rejected by date_to_serial_number and by typing.
+fn check_invalid_date(ctx: &mut Ctx, y: i64, m: i64, d: i64) -> Vec<Disagreement> {
+    let case = json!({"invalid": [y, m, d]});
+    let mut out = vec![];
+    if let Ok(s) = date_to_serial_number(d as u32, m as u32, y as i32) {
+        out.push(Disagreement {
+            sig: "date_to_serial_number accepts-invalid-date".into(),
+            case: case.clone(),
+            detail: format!("{}-{}-{} is not a calendar date but maps to serial {}", y, m, d, s),
+        });
+    }
+    let text = iso(y, m, d);
+    let md = &mut ctx.model;
+    let _ = md.range_clear_all(&Area { sheet: 0, row: 3, column: 1, width: 1, height: 1 });
+    if md.set_user_input(0, 3, 1, text.clone()).is_ok() {
+        if let crate::fnum::Kind::Number(x) = crate::fnum::cell_kind(md, 0, 3, 1) {
+            out.push(Disagreement {
+                sig: "typed-iso accepts-invalid-date".into(),
+                case,
+                detail: format!("typing `{}` (not a calendar date) stores the number {}", text, x),
+            });
+        }
+    }
+    out
+}
+
+fn outside_serials() -> Vec<i64> {
+    vec![
+        0,
+        -1,
+        -2,
+        -366,
+        -693_593,
+        -693_594,
+        MAX_SERIAL + 1,
+        MAX_SERIAL + 2,
+        MAX_SERIAL + 366,
+        10_000_000,
+    ]
+}
+
+fn invalid_dates() -> Vec<(i64, i64, i64)> {
+    let mut v = vec![];
+    for y in [1900, 1999, 2000, 2023, 2024, 2100, 2400, 9999] {
+        for m in 1..=12 {
+            v.push((y, m, days_in_month(y, m) + 1));
+            v.push((y, m, 0));
+        }
+        v.push((y, 0, 1));
+        v.push((y, 13, 1));
+    }
+    v
+}
+
+fn serial_list(thorough: bool) -> Vec<i64> {
+    if thorough {
+        return (MIN_SERIAL..=MAX_SERIAL).collect();
+    }
+    let mut v: Vec<i64> = (MIN_SERIAL..=MAX_SERIAL).step_by(97).collect();
+    v.extend(MIN_SERIAL..MIN_SERIAL + 1000);
+    v.extend(MAX_SERIAL - 999..=MAX_SERIAL);
+    let base = base_days();
+    for y in 1899..=9999i64 {
+        for m in 1..=12i64 {
+            for d in [1, 2, days_in_month(y, m) - 1, days_in_month(y, m)] {
+                let s = days_from_civil(y, m, d) - base;
+                if (MIN_SERIAL..=MAX_SERIAL).contains(&s) {
+                    v.push(s);
+                }
+            }
+        }
+    }
+    v.sort();
+    v.dedup();
+    v
+}
+
+/// The reference calendar is checked against an independent day-by-day walk before it is used as an oracle.
+fn self_check_reference() -> Result<(), String> {
+    let (mut y, mut m, mut d) = (1899i64, 12i64, 30i64);
+    let base = base_days();
+    for n in 0..=MAX_SERIAL + 400 {
+        if civil_from_days(base + n) != (y, m, d) || days_from_civil(y, m, d) != base + n {
+            return Err(format!("reference calendar disagrees with the day walk at offset {}", n));
+        }
+        d += 1;
+        if d > days_in_month(y, m) {
+            d = 1;
+            m += 1;
+            if m > 12 {
+                m = 1;
+                y += 1;
+            }
+        }
+    }
+    // 1970-01-01 was a Thursday, 2000-01-01 a Saturday, 2024-02-29 a Thursday
+    if weekday_mon0(0) != 3 || weekday_mon0(days_from_civil(2000, 1, 1)) != 5 || weekday_mon0(days_from_civil(2024, 2, 29)) != 3 {
+        return Err("reference weekday is wrong".into());
+    }
+    if ref_date(MIN_SERIAL) != (1899, 12, 31) || ref_date(MAX_SERIAL) != (9999, 12, 31) {
+        return Err("reference epoch does not give 1899-12-31 .. 9999-12-31".into());
+    }
+    Ok(())
+}
+
+pub fn run(run: &mut Run) {
+    if let Err(e) = self_check_reference() {
+        run.machinery_errors.push(e);
+        return;
+    }
+    let thorough = run.tier.thorough();
+    let serials = serial_list(thorough);
+    let outside = outside_serials();
+    let invalid = invalid_dates();
+    run.rule = "every serial is one case with 17 comparisons (2 conversion functions, 9 formulas through a model, 3 date formats, typing the ISO text: value, format, display); non-trivial = serials on the first/last day of a month or on a leap day, where the calendar arithmetic branches".into();
+    run.bound = json!({
+        "serials": if thorough { json!("all 1..=2958465") } else { json!("every 97th serial, days 1,2,last-1,last of every month 1899-12..9999-12, first and last 1000 serials") },
+        "serial_count": serials.len(),
+        "outside_serials": outside,
+        "invalid_dates": invalid.len(),
+        "entry_points": ["from_excel_date", "date_to_serial_number", "YEAR", "MONTH", "DAY", "WEEKDAY(,default|1|2|3)", "DATE", "format_number yyyy-mm-dd | d/m/yy | dddd", "set_user_input(ISO text)"],
+    });
+    let chunk = 4096usize;
+    let n_units = serials.len().div_ceil(chunk);
+    let res = crate::env::par_units(n_units, |u| {
+        let mut ctx = Ctx::new();
+        let mut ds = vec![];
+        let mut ok_dates = 0u64;
+        let mut nontrivial = 0u64;
+        for &n in serials.iter().skip(u * chunk).take(chunk) {
+            match crate::env::guarded(|| check_serial(&mut ctx, n)) {
+                Ok((d, ok)) => {
+                    ds.extend(d);
+                    if ok {
+                        ok_dates += 1;
+                    }
+                }
+                Err(p) => {
+                    ds.push(Disagreement {
+                        sig: format!("panic at={}", p.rsplit(" @ ").next().unwrap_or("?")),
+                        case: json!({"serial": n}),
+                        detail: p,
+                    });
+                    ctx = Ctx::new();
+                }
+            }
+            if class_of(n) != "inner" {
+                nontrivial += 1;
+            }
+        }
+        (ds, ok_dates, nontrivial)
+    });
+    let mut ok_total = 0;
+    for r in res {
+        match r {
+            Ok((ds, ok, nt)) => {
+                run.add_all(ds);
+                ok_total += ok;
+                run.nontrivial += nt;
+            }
+            Err(e) => run.machinery_errors.push(format!("unit panicked: {}", e)),
+        }
+    }
+    // outside the range and invalid dates (one unit)
+    let extra = crate::env::fresh(|| {
+        let mut ctx = Ctx::new();
+        let mut ds = vec![];
+        for &n in &outside {
+            match crate::env::guarded(|| check_serial(&mut ctx, n)) {
+                Ok((d, _)) => ds.extend(d),
+                Err(p) => {
+                    ds.push(Disagreement {
+                        sig: format!("panic at={}", p.rsplit(" @ ").next().unwrap_or("?")),
+                        case: json!({"serial": n}),
+                        detail: p,
+                    });
+                    ctx = Ctx::new();
+                }
+            }
+        }
+        for &(y, m, d) in &invalid {
+            ds.extend(check_invalid_date(&mut ctx, y, m, d));
+        }
+        ds
+    });
+    match extra {
+        Ok(ds) => run.add_all(ds),
+        Err(e) => run.machinery_errors.push(format!("outside unit panicked: {}", e)),
+    }
+    let total = (serials.len() + outside.len() + invalid.len()) as u64;
+    run.evaluations = total;
+    run.states = total;
+    run.transitions = serials.len() as u64 * 11 + (outside.len() + invalid.len()) as u64 * 6;
+    run.traces = total;
+    run.distinct_outcomes = ok_total;
+    run.sample(json!({"serial": serials[0], "reference": iso(ref_date(serials[0]).0, ref_date(serials[0]).1, ref_date(serials[0]).2)}));
+    let mid = serials[serials.len() / 2];
+    run.sample(json!({"serial": mid, "reference": iso(ref_date(mid).0, ref_date(mid).1, ref_date(mid).2)}));
+    let last = serials[serials.len() - 1];
+    run.sample(json!({"serial": last, "reference": iso(ref_date(last).0, ref_date(last).1, ref_date(last).2)}));
+    run.exhaustive = true;
+    run.assume("epoch convention taken from the engine and the property text: serial 1 = 1899-12-31, serial 2 = 1900-01-01, no phantom 1900-02-29 (all of the engine's own entry points agree on it)");
+    run.assume("the reference calendar (civil-from-days) is itself checked against a day-by-day walk over the whole range at start-up");
+    run.assume("formulas are evaluated in one en/en model per unit of 4096 serials; only integer serials are swept (fractions of a day are not part of the statement)");
+    run.assume("distinct_outcomes counts serials whose from_excel_date equals the (injective) reference date");
+}
+
+pub fn replay(case: &Value) -> Vec<Disagreement> {
+    let mut ctx = Ctx::new();
+    if let Some(n) = case["serial"].as_i64() {
+        return check_serial(&mut ctx, n).0;
+    }
+    if let Some(a) = case["invalid"].as_array() {
+        let g = |i: usize| a.get(i).and_then(|v| v.as_i64()).unwrap_or(0);
+        return check_invalid_date(&mut ctx, g(0), g(1), g(2));
+    }
     vec![]
 }
